@@ -895,7 +895,13 @@ func (fc *funcContext) delegatedCall(expr *ast.CallExpr) (callable *expression, 
 	isJs := false
 	switch fun := expr.Fun.(type) {
 	case *ast.Ident:
-		_, isBuiltin = fc.pkgCtx.Uses[fun].(*types.Builtin)
+		var builtin *types.Builtin
+		builtin, isBuiltin = fc.pkgCtx.Uses[fun].(*types.Builtin)
+		if isBuiltin && builtin.Name() == "recover" {
+			// recover only stops a panic when a deferred function calls it. Here it
+			// is the deferred function itself, which a wrapper would conceal.
+			return fc.formatExpr("$recover"), fc.formatExpr("[]")
+		}
 	case *ast.SelectorExpr:
 		isJs = typesutil.IsJsPackage(fc.pkgCtx.Uses[fun.Sel].Pkg())
 	}
